@@ -103,6 +103,9 @@ func solveAll(results []*vc.FuncResult, s *vc.Solver, workers int) []*oblResult 
 	// obligation's other queries (they are marked "skipped": the obligation is already not discharged).  A
 	// query that ran out of time is retried once, a few at a time, with twice the limit; if the retry
 	// succeeds the obligation's skipped queries are attempted in the next round.  A `sat` answer is final.
+	// breadth first over the obligations (every obligation's first path query, then the second ones, ...):
+	// an obligation that fails is found out by one worker while the others go on with other obligations
+	sort.SliceStable(jobs, func(a, b int) bool { return jobs[a].qi < jobs[b].qi })
 	pending := jobs
 	retried := map[*oblResult]map[int]bool{}
 	for round := 0; len(pending) > 0 && round < 6; round++ {
